@@ -39,6 +39,10 @@ func (t *CSVFormatter) Write(values []octosql.Value) error {
 	var builder strings.Builder
 	row := make([]string, len(values))
 	for i := range values {
+		switch values[i].TypeID {
+		case octosql.TypeIDList, octosql.TypeIDStruct, octosql.TypeIDTuple:
+			return fmt.Errorf("can't print value of type %s in column '%s' as CSV, only scalar values are supported", values[i].TypeID.String(), t.fields[i].Name)
+		}
 		FormatCSVValue(&builder, values[i])
 		row[i] = builder.String()
 		builder.Reset()
